@@ -6,7 +6,7 @@ import solvercorr as sc
 import solverslices
 from props.c04 import TRUSTED
 
-THEOREMS = ["C02_reciprocity", "C02_shift_is_phase"]
+THEOREMS = ["C02_reciprocity", "C02_shift_is_phase", "C02_point_measurement", "C02_point_measurement_cells"]
 ASSUMPTIONS = [
     "the theorem is for double-precision storage; single precision is covered by the oracle with the property's storage-rounding tolerance (1e-4 relative)",
     "measurement points are on the grid (xm = im*dx, ym = jm*dy)",
@@ -49,9 +49,93 @@ def gen(ctx):
     return cases, kinds
 
 
+PM_FORMS = ["return np.sum(f * g)", "return np.sum(g * f)", "return (f * g).sum()", "return (g * f).sum()",
+            "return np.sum(np.multiply(f, g))"]
+
+
+def pm_structure(ctx):
+    """fail-closed: utils.point_measurement(f, g) must be one of the forms that Model/Utils.point_measurement
+    describes (sum over all cells of the element-wise product)"""
+    import ast, os
+    src = open(os.path.join(core.SRC, "bldfm", "utils.py")).read()
+    fn = [n for n in ast.parse(src).body if isinstance(n, ast.FunctionDef) and n.name == "point_measurement"]
+    ok, detail = False, "utils.point_measurement not found"
+    if fn:
+        body = fn[0].body
+        if body and isinstance(body[0], ast.Expr) and isinstance(getattr(body[0], "value", None), ast.Constant):
+            body = body[1:]
+        got = ast.dump(ast.Module(body=body, type_ignores=[]))
+        args = [a.arg for a in fn[0].args.args]
+        ok = args == ["f", "g"] and any(got == ast.dump(ast.Module(body=ast.parse(t).body, type_ignores=[])) for t in PM_FORMS)
+        detail = "signature %r, body %s" % (args, ast.unparse(ast.Module(body=body, type_ignores=[]))[:300])
+    ctx.obligation("structure:point_measurement", ok, "" if ok else "utils.point_measurement is no longer `np.sum(f * g)`: " + detail)
+
+
+def pm_cases(ctx):
+    """integer-valued arrays (every product and partial sum exact in binary64 in any order): shapes with ny != nx,
+    1 x n, n x 1, dtypes int64/int32/float32/float64, C/F/transposed/strided layouts, asymmetric f vs g"""
+    rng = np.random.default_rng(ctx.rng.randrange(2**31))
+    out = []
+    shapes = [(3, 4), (4, 3), (1, 5), (5, 1), (2, 2), (6, 5), (1, 1), (7, 3)]
+    for n in range(64 if ctx.thorough else 24):
+        ny, nx = shapes[n % len(shapes)]
+        f = rng.integers(-9, 10, size=(ny, nx)).astype([np.float64, np.int64, np.float32, np.int32][n % 4])
+        g = rng.integers(-9, 10, size=(ny, nx)).astype([np.float64, np.float64, np.int64, np.float32][(n // 4) % 4])
+        lay = n % 5
+        if lay == 1:
+            f = np.asfortranarray(f)
+        elif lay == 2:
+            g = np.ascontiguousarray(g.T).T
+        elif lay == 3:
+            big = np.zeros((2 * ny, 2 * nx), dtype=f.dtype)
+            big[::2, ::2] = f
+            f = big[::2, ::2]
+        elif lay == 4 and ny * nx > 1:
+            g = g.copy()
+            g[-1, -1] = 1000 + n  # asymmetric marker cell: a flip/transpose/cropped sum changes the result
+        out.append((f, g))
+    return out
+
+
+def pm_correspond(ctx):
+    import sys
+    if core.SRC not in sys.path:
+        sys.path.insert(0, core.SRC)
+    from bldfm.utils import point_measurement
+    header = ("From Coq Require Import ZArith PrimFloat List Bool.\n"
+              "From BL Require Import Base.Ops Base.FloatOps Model.Utils.\nImport ListNotations.\nOpen Scope float_scope.\n")
+    def arr(a):
+        return core.coq_list([core.coq_list(["(%s, 0%%float)" % core.flit(float(x)) for x in row]) for row in np.asarray(a)])
+    terms, exp, n_ok = [], {}, 0
+    for i, (f, g) in enumerate(pm_cases(ctx)):
+        try:
+            r = float(point_measurement(f, g))
+        except Exception as e:  # the unchanged helper never raises on equal shapes
+            ctx.fail("correspondence", "C02:point_measurement-%d" % i, "raises %s: %s" % (type(e).__name__, e),
+                     hint={"pm": [np.asarray(f, float).tolist(), np.asarray(g, float).tolist()]})
+            continue
+        exp[str(i)] = (r, f, g)
+        terms.append((str(i), "let r := point_measurement FloatOps %s %s in (PrimFloat.eqb (fst r) %s && PrimFloat.eqb (snd r) 0%%float)%%bool"
+                      % (arr(f), arr(g), core.flit(r))))
+    res = core.coq_eval_sharded(ctx, "c02pm", header, terms, shard=16)
+    if "__error__" in res:
+        ctx.fail("correspondence", "C02:point_measurement-eval", res["__error__"])
+    for cid, (r, f, g) in exp.items():
+        if res.get(cid) == "true":
+            n_ok += 1
+        else:
+            ctx.fail("correspondence", "C02:point_measurement-%s" % cid,
+                     "utils.point_measurement returned %r; Model/Utils.point_measurement (FloatOps, exact on integer data) disagrees (%s)" % (r, res.get(cid)),
+                     hint={"pm": [np.asarray(f, float).tolist(), np.asarray(g, float).tolist()]})
+    ctx.cov["point_measurement_cases"] = {"evaluated": len(exp), "agree": n_ok,
+        "rule": "integer-valued arrays of shapes incl. ny != nx, 1 x n, n x 1; int/float dtypes; C/F/strided layouts; asymmetric marker cell"}
+
+
 def check(ctx):
     core.check_properties_file(ctx, "Properties/C02.v", THEOREMS, core.AX_NONE)
     solverslices.run(ctx)
+    pm_structure(ctx)
+    pm_correspond(ctx)
     cases, kinds = gen(ctx)
     recs = sc.correspond(ctx, cases, "c02_")
     sc.summarize(ctx, cases, recs,
@@ -74,6 +158,10 @@ def probe(S, case):
     hk = "default" if halo is None else ("commensurate" if (halo / dx) % 1 == 0 and (halo / dy) % 1 == 0 else "incommensurate")
     xs = np.linspace(0, case["domain"][0], nx, endpoint=False)  # the solver's own grid coordinates
     ys = np.linspace(0, case["domain"][1], ny, endpoint=False)
+    import sys
+    if core.SRC not in sys.path:
+        sys.path.insert(0, core.SRC)
+    from bldfm.utils import point_measurement as PM
     towers = [(i, j) for i in range(nx) for j in range(ny)] if nx * ny <= 42 and ny <= 3 + (nx * 7919) % 4 else         [(0, 0), (nx - 1, ny // 2), (nx // 2, ny - 1), (3 % nx, 0), (nx - 1, ny - 1)]
     for (im, jm) in dict.fromkeys(towers):
         fpc = dict(case, footprint=True, meas_pt=(float(xs[im]), float(ys[jm])), bg=0.0)
@@ -85,14 +173,14 @@ def probe(S, case):
         C = np.asarray(C, float).reshape(len(lv), ny, nx)
         Q = np.asarray(Q, float).reshape(len(lv), ny, nx)
         for k in range(len(lv)):
-            lhs_f, rhs_f = float(np.sum(case["q0"] * F[k])), float(Q[k, jm, im])
-            lhs_c, rhs_c = float(np.sum(case["q0"] * G[k])), float(C[k, jm, im] - case["bg"])
+            lhs_f, rhs_f = float(PM(case["q0"], F[k])), float(Q[k, jm, im])
+            lhs_c, rhs_c = float(PM(case["q0"], G[k])), float(C[k, jm, im] - case["bg"])
             sf = max(np.abs(Q[k]).max(), 1e-300)
             scn = max(np.abs(C[k] - case["bg"]).max(), 1e-300)
             if abs(lhs_f - rhs_f) > tol * sf:
-                out.append(("reciprocity:flux:halo-%s" % hk, "tower (%d,%d) level %d: sum(q*fp)=%.12g, forward flux=%.12g" % (im, jm, lv[k], lhs_f, rhs_f)))
+                out.append(("reciprocity:flux:halo-%s" % hk, "tower (%d,%d) level %d: point_measurement(q, fp)=%.12g, forward flux=%.12g" % (im, jm, lv[k], lhs_f, rhs_f)))
             if abs(lhs_c - rhs_c) > tol * scn:
-                out.append(("reciprocity:conc:halo-%s" % hk, "tower (%d,%d) level %d: sum(q*G)=%.12g, forward conc-bg=%.12g" % (im, jm, lv[k], lhs_c, rhs_c)))
+                out.append(("reciprocity:conc:halo-%s" % hk, "tower (%d,%d) level %d: point_measurement(q, G)=%.12g, forward conc-bg=%.12g" % (im, jm, lv[k], lhs_c, rhs_c)))
     return out
 
 
@@ -102,18 +190,39 @@ def oracle(ctx, hints):
     cases, _ = gen(ctx)
     pool += cases[:: (1 if ctx.thorough else 2)]
     found = {}
+    # the helper itself, on exact integer data: point_measurement(f, g) must be the sum over cells of f*g
+    from bldfm.utils import point_measurement as PM
+    pms = [(np.array(h["pm"][0]), np.array(h["pm"][1])) for h in hints if h and "pm" in h] + pm_cases(ctx)
+    pm_hit = None
+    for f, g in pms:
+        want = sum(int(a) * int(b) for a, b in zip(np.asarray(f).ravel(order="C").tolist(), np.asarray(g).ravel(order="C").tolist()))
+        try:
+            got = float(PM(f, g))
+        except Exception as e:
+            got = "raises %s" % type(e).__name__
+        if got != float(want) and pm_hit is None:
+            pm_hit = {"signature": "point_measurement:not-sum-of-products",
+                      "what": "C02 utils.point_measurement(f, g) = %r but sum over cells of f*g = %d for f=%r g=%r" % (got, want, np.asarray(f, float).tolist(), np.asarray(g, float).tolist()),
+                      "replay": {"pm": [np.asarray(f, float).tolist(), np.asarray(g, float).tolist()], "want": want}}
     for case in pool:
         try:
             for sig, detail in probe(S, case):
                 found.setdefault(sig, (detail, case))
         except Exception as e:
             found.setdefault("solver-raises:" + type(e).__name__, (str(e), case))
-    return [{"signature": sig, "what": "C02 %s: %s on %r" % (sig, d, sc.describe(c)), "replay": {"case": sc.full(c), "detail": d}}
+    return ([pm_hit] if pm_hit else []) + [{"signature": sig, "what": "C02 %s: %s on %r" % (sig, d, sc.describe(c)), "replay": {"case": sc.full(c), "detail": d}}
             for sig, (d, c) in found.items()]
 
 
 def replay(body):
     S = sc.impl()
+    if "pm" in body:
+        from bldfm.utils import point_measurement as PM
+        f, g = np.array(body["pm"][0]), np.array(body["pm"][1])
+        got = float(PM(f, g))
+        print("point_measurement =", got, "sum of products =", body["want"])
+        print("FAILS" if got != float(body["want"]) else "holds on this input")
+        return 1 if got != float(body["want"]) else 0
     res = probe(S, sc.from_full(body["case"]))
     for sig, d in res:
         print("FAILS", sig, d)
